@@ -178,6 +178,10 @@ func spzBodyLen(c Case) int {
 type file struct {
 	data      []byte
 	bodyStart int  // first byte after the header
+	// lastData > 0: the offset just after the last byte of payload the decoder needs (ascii: the end
+	// of the last number; binary reference files: the end of the file). A prefix shorter than that lacks
+	// data, so a decode equal to the complete file's cannot be honest.
+	lastData int
 	ascii     bool // ascii body: cuts inside a number are skipped
 	dec       func([]byte) (*modeling.Mesh, error)
 	splat     bool
@@ -193,7 +197,16 @@ func build(c Case) (file, bool) {
 			return file{}, false
 		}
 		enc := c.Ply.Encode()
-		return file{data: enc.Bytes, bodyStart: enc.HeaderLen, ascii: c.Ply.Format == "ascii", dec: plyDec}, true
+		last := len(enc.Bytes)
+		if c.Ply.Format == "ascii" {
+			last = 0
+			for _, tk := range enc.Tokens {
+				if !tk.Line && tk.Off > last {
+					last = tk.Off
+				}
+			}
+		}
+		return file{data: enc.Bytes, bodyStart: enc.HeaderLen, ascii: c.Ply.Format == "ascii", dec: plyDec, lastData: last}, true
 	case "plywrite":
 		if c.Mesh == nil {
 			return file{}, false
@@ -461,6 +474,9 @@ func judgeCutLazy(f file, full func() *modeling.Mesh, k int, label string, o *vh
 			// decodes to the complete mesh had its missing records made up (equal only because the
 			// reference decode made them up the same way)
 			return vh.Failf("fabricated/"+label, "prefix of %d/%d bytes decodes without error to all %d triangles although the file has no trailing framing", k, len(f.data), r.m.Indices().Len()/3)
+		}
+		if f.lastData > 0 && k < f.lastData && rel == "equal" && r.m.Indices().Len() > 0 {
+			return vh.Failf("fabricated/"+label, "prefix of %d/%d bytes (payload ends at %d) decodes without error to the same mesh as the complete file although payload is missing: both decodes made data up\n%q", k, len(f.data), f.lastData, clip(f.data[:k]))
 		}
 		switch rel {
 		case "equal":
